@@ -7,7 +7,13 @@ From the source text of /repo (Python `ast`, nothing imported from mako):
                                 harness run the regex correspondence at thorough size);
     * `defaultStr`            - the last operand of `m and m.group(1) or known_encoding or "utf-8"` (str input);
     * `defaultBytes`          - the last operand of `m.group(1) if m else known_encoding or "utf-8"` (bytes input);
-    * `bomEncoding`, `bomCompare` - `parsed_encoding = "utf-8"` and `m.group(1) != "utf-8"` in the BOM branch;
+    * `bomEncoding`, `bomCompare` - `parsed_encoding = "utf-8"` and the literal the comment is compared with in the BOM
+                                branch: `m.group(1) != "utf-8"` (`bomCompareByCodec = false`), or, since the repair of
+                                F-C18-1, `not self._is_utf8(m.group(1))` with `_is_utf8(n)` = `codecs.lookup(n).name == "utf-8"`,
+                                False on LookupError (`bomCompareByCodec = true`, `bomCompare` = that canonical name);
+    * `utf8Aliases`           - the names of a candidate list (every key/value of `encodings.aliases.aliases` in lower/upper/
+                                title case with `_` and `-`, restricted to `[-\\w.]+`) that the *running interpreter's* codec
+                                registry maps to utf-8: the tested instance of the model's abstract `Env.isUtf8`;
     * `sniffCodec`, `sniffErrors` - the arguments of the `.decode("utf-8", "ignore")` whose result `_coding_re` sees;
     * `decodeErrorCaught`     - the exception class of the `except` around `text.decode(parsed_encoding)`;
     * `bom`                   - the value of the `codecs.BOM_*` constant named in `text.startswith(codecs.BOM_UTF8)`
@@ -16,8 +22,10 @@ From the source text of /repo (Python `ast`, nothing imported from mako):
   mako/template.py
     * `moduleFallback`        - `"ascii"` of `source.encode(lexer.encoding or "ascii")` in `_compile_module_file`;
     * `magicInText`, `magicInModuleFile` - the `generate_magic_comment=` keyword of `_compile_text` / `_compile_module_file`;
+    * `sourceStripsBom`       - `ModuleInfo.source` drops a leading `codecs.BOM_UTF8` before decoding (repair of F-C18-3);
   mako/codegen.py
     * `magicPrefix`, `magicSuffix` - the format `"# -*- coding:%s -*-"` split at `%s`;
+    * `namesWrittenAscii`     - `_template_filename` / `_template_uri` are written with `%a` (repair of F-C18-4), not `%r`;
   mako/util.py
     * `pyMagicPattern`, `pyMagicVerbose` - `_PYTHON_MAGIC_COMMENT_re`; `parseEncodingBom` - the `"utf_8"` returned for a BOM;
     * `lineCodec`, `lineErrors` - `.decode("ascii", "ignore")` of the two lines `parse_encoding` looks at;
@@ -124,6 +132,7 @@ def lexer_part(repo):
     if not hasattr(codecs, bom_name) or not isinstance(getattr(codecs, bom_name), bytes):
         raise RegenError("codecs.%s is not a bytes constant" % bom_name)
     bom_enc = bom_cmp = None
+    by_codec = False
     strips = False
     for n in bom_if.body:
         for m in ast.walk(n):
@@ -135,8 +144,23 @@ def lexer_part(repo):
             if (isinstance(m, ast.Compare) and len(m.ops) == 1 and isinstance(m.ops[0], ast.NotEq)
                     and isinstance(m.comparators[0], ast.Constant) and isinstance(m.comparators[0].value, str)):
                 bom_cmp = m.comparators[0].value
+            if (isinstance(m, ast.UnaryOp) and isinstance(m.op, ast.Not) and isinstance(m.operand, ast.Call)
+                    and isinstance(m.operand.func, ast.Attribute) and m.operand.func.attr == "_is_utf8"):
+                by_codec = True
+    if by_codec:
+        isu = find_func(cls.body, "_is_utf8", LEX)
+        names = [m.comparators[0].value for m in ast.walk(isu)
+                 if isinstance(m, ast.Compare) and len(m.ops) == 1 and isinstance(m.ops[0], ast.Eq)
+                 and isinstance(m.left, ast.Attribute) and m.left.attr == "name"
+                 and isinstance(m.left.value, ast.Call) and ast.unparse(m.left.value.func) == "codecs.lookup"
+                 and isinstance(m.comparators[0], ast.Constant) and isinstance(m.comparators[0].value, str)]
+        handlers = [ast.unparse(h.type) for m in ast.walk(isu) if isinstance(m, ast.Try) for h in m.handlers if h.type is not None]
+        falses = [m for m in ast.walk(isu) if isinstance(m, ast.Return) and isinstance(m.value, ast.Constant) and m.value.value is False]
+        if len(names) != 1 or handlers != ["LookupError"] or not falses:
+            raise RegenError("%s: Lexer._is_utf8 is not `codecs.lookup(x).name == <lit>` / `except LookupError: return False`" % LEX)
+        bom_cmp = names[0]
     if bom_enc is None or bom_cmp is None:
-        raise RegenError("%s: BOM branch lacks `parsed_encoding = <lit>` or `m.group(1) != <lit>`" % LEX)
+        raise RegenError("%s: BOM branch lacks `parsed_encoding = <lit>` or `m.group(1) != <lit>` / `not self._is_utf8(m.group(1))`" % LEX)
     if not any(isinstance(m, ast.Raise) for n in bom_if.body for m in ast.walk(n)):
         raise RegenError("%s: BOM branch does not raise on a conflicting comment" % LEX)
     default_bytes = None
@@ -173,7 +197,7 @@ def lexer_part(repo):
                     and n.args and isinstance(n.args[0], ast.Attribute) and n.args[0].attr == "_coding_re"):
                 skips = True
     return dict(pat=pat, default_str=default_str, default_bytes=default_bytes, bom_enc=bom_enc, bom_cmp=bom_cmp,
-                bom=list(getattr(codecs, bom_name)), bom_name=bom_name, bom_strips=strips,
+                bom=list(getattr(codecs, bom_name)), bom_name=bom_name, bom_strips=strips, by_codec=by_codec,
                 sniff_codec=sniff_codec, sniff_errors=sniff_errors, caught=caught, skips=skips,
                 fp_drs=_fp(drs))
 
@@ -200,7 +224,9 @@ def template_part(repo):
                         return bool(k.value.value)
         raise RegenError("%s: %s does not call _compile(generate_magic_comment=<literal>)" % (TPL, fn.name))
     mi = find_class(tree, "ModuleInfo", TPL)
-    return dict(fallback=fallback, magic_text=magic_kw(find_func(tree.body, "_compile_text", TPL)),
+    src_fn = find_func(mi.body, "source", TPL)
+    src_strips = any(isinstance(n, ast.If) and _is_startswith_bom(n.test) for n in ast.walk(src_fn))
+    return dict(src_strips=src_strips, fallback=fallback, magic_text=magic_kw(find_func(tree.body, "_compile_text", TPL)),
                 magic_file=magic_kw(cmf), fp_source=_fp(find_func(mi.body, "source", TPL)))
 
 
@@ -218,7 +244,18 @@ def codegen_part(repo):
     if fmt is None or fmt.count("%s") != 1 or "%" in fmt.replace("%s", ""):
         raise RegenError("%s: magic-comment format not found / not of the form `…%%s…`: %r" % (CG, fmt))
     pre, suf = fmt.split("%s")
-    return dict(pre=pre, suf=suf)
+    convs = {}
+    for n in ast.walk(tree):
+        if (isinstance(n, ast.BinOp) and isinstance(n.op, ast.Mod) and isinstance(n.left, ast.Constant)
+                and isinstance(n.left.value, str)):
+            for key in ("_template_filename = ", "_template_uri = "):
+                if n.left.value.startswith(key):
+                    convs[key] = n.left.value[len(key):]
+    if set(convs) != {"_template_filename = ", "_template_uri = "} or not all(v in ("%r", "%a") for v in convs.values()):
+        raise RegenError("%s: `_template_filename = %%r|%%a` / `_template_uri = %%r|%%a` not found: %s" % (CG, convs))
+    if len(set(convs.values())) != 1:
+        raise RegenError("%s: file name and uri are written with different conversions: %s" % (CG, convs))
+    return dict(pre=pre, suf=suf, names_ascii=list(convs.values())[0] == "%a")
 
 
 def util_part(repo):
@@ -255,6 +292,26 @@ def _b(x):
     return "true" if x else "false"
 
 
+def utf8_alias_probe(canonical):
+    """(names of the candidate list that the interpreter's registry maps to `canonical`, size of the candidate list)"""
+    import encodings.aliases
+    import re
+    cands = set()
+    for b in list(encodings.aliases.aliases) + list(set(encodings.aliases.aliases.values())) + ["utf_8", "latin_1", "ascii"]:
+        for sep in ("_", "-"):
+            n = b.replace("_", sep)
+            cands.update([n, n.upper(), n.title()])
+    cands = sorted(n for n in cands if re.fullmatch(r"[-\w.]+", n) and n.isascii())
+    ok = []
+    for n in cands:
+        try:
+            if codecs.lookup(n).name == canonical:
+                ok.append(n)
+        except LookupError:
+            pass
+    return ok, cands
+
+
 @group("Encoding")
 def gen(repo):
     lx = lexer_part(repo)
@@ -273,7 +330,13 @@ def gen(repo):
     d("`m and m.group(1) or known_encoding or <this>` - str input", "defaultStr", "List Char", lean_str(lx["default_str"]))
     d("`m.group(1) if m else known_encoding or <this>` - bytes input", "defaultBytes", "List Char", lean_str(lx["default_bytes"]))
     d("`parsed_encoding = <this>` in the BOM branch", "bomEncoding", "List Char", lean_str(lx["bom_enc"]))
-    d("`m.group(1) != <this>` in the BOM branch", "bomCompare", "List Char", lean_str(lx["bom_cmp"]))
+    d("what the comment is compared with in the BOM branch: `m.group(1) != <this>`, or `codecs.lookup(m.group(1)).name == <this>`",
+      "bomCompare", "List Char", lean_str(lx["bom_cmp"]))
+    d("the BOM branch compares by codec (`not self._is_utf8(m.group(1))`), not by spelling", "bomCompareByCodec", "Bool", _b(lx["by_codec"]))
+    aliases, cands = utf8_alias_probe(lx["bom_cmp"])
+    d("names (of %d probed candidates built from encodings.aliases) that `codecs.lookup` of the running interpreter maps to %r"
+      % (len(cands), lx["bom_cmp"]), "utf8Aliases", "List (List Char)", "[" + ", ".join(lean_str(a) for a in aliases) + "]")
+    d("the probed candidates that it does not (or that it does not know)", "probedOtherCount", "Nat", str(len(cands) - len(aliases)))
     d("`codecs.%s` (the constant named in decode_raw_stream)" % lx["bom_name"], "bom", "List Nat",
       "[" + ", ".join(str(b) for b in lx["bom"]) + "]")
     d("the BOM branch drops the BOM from the text before decoding", "bomStripped", "Bool", _b(lx["bom_strips"]))
@@ -282,6 +345,8 @@ def gen(repo):
     d("exception class caught around `text.decode(parsed_encoding)`", "decodeErrorCaught", "String", lean_string(lx["caught"]))
     d("`parse` calls `self.match_reg(self._coding_re)` before its loop", "parseSkipsCodingComment", "Bool", _b(lx["skips"]))
     d("`source.encode(lexer.encoding or <this>)` in `_compile_module_file`", "moduleFallback", "List Char", lean_str(tp["fallback"]))
+    d("`ModuleInfo.source` drops a leading BOM before decoding", "sourceStripsBom", "Bool", _b(tp["src_strips"]))
+    d("`_template_filename` / `_template_uri` are written with %a", "namesWrittenAscii", "Bool", _b(cg["names_ascii"]))
     d("`generate_magic_comment` of `_compile_text`", "magicInText", "Bool", _b(tp["magic_text"]))
     d("`generate_magic_comment` of `_compile_module_file`", "magicInModuleFile", "Bool", _b(tp["magic_file"]))
     d("magic comment format of `write_toplevel`, before `%s`", "magicPrefix", "List Char", lean_str(cg["pre"]))
